@@ -13,6 +13,7 @@ import (
 	"io"
 	"net"
 	"sync"
+	"sync/atomic"
 
 	"google.golang.org/grpc"
 	"google.golang.org/grpc/codes"
@@ -87,6 +88,8 @@ type Net struct {
 	frames   []*FrameRec
 	step     int
 	panics   []string
+	misuseMu sync.Mutex
+	misuse   []string
 	// KeepBytes controls whether the tap keeps serialized frames (needed by the monitors).
 	onHandlerDone func(s *Stream, err error)
 }
@@ -112,6 +115,21 @@ func (n *Net) SetStep(s int) {
 	n.mu.Lock()
 	n.step = s
 	n.mu.Unlock()
+}
+
+func (n *Net) noteMisuse(m string) {
+	n.misuseMu.Lock()
+	if len(n.misuse) < 8 {
+		n.misuse = append(n.misuse, m)
+	}
+	n.misuseMu.Unlock()
+}
+
+// Misuse lists the concurrent-use violations the library committed against carrier streams.
+func (n *Net) Misuse() []string {
+	n.misuseMu.Lock()
+	defer n.misuseMu.Unlock()
+	return append([]string(nil), n.misuse...)
 }
 
 func (n *Net) Panics() []string {
@@ -225,6 +243,19 @@ type Stream struct {
 
 	HandlerErr  error
 	HandlerDone bool
+
+	// concurrent-use detection (grpc-go: SendMsg must not be called concurrently with SendMsg or CloseSend on the same
+	// stream, nor RecvMsg with RecvMsg); counted outside net.mu so that a call waiting for the lock is seen
+	cliSending, cliRecving, srvSending, srvRecving atomic.Int32
+}
+
+// enter notes the start of a carrier-stream call of one kind; it reports a misuse when another call of that kind is
+// already under way on the same stream half.
+func (s *Stream) enter(ctr *atomic.Int32, what string) func() {
+	if ctr.Add(1) > 1 {
+		s.net.noteMisuse(fmt.Sprintf("carrier stream %d (%s): %s called while another such call was in progress on the same stream", s.Idx, s.Method, what))
+	}
+	return func() { ctr.Add(-1) }
 }
 
 type pipeState struct {
@@ -606,6 +637,7 @@ func (c *clientStream) Trailer() metadata.MD {
 
 func (c *clientStream) CloseSend() error {
 	s := c.s
+	defer s.enter(&s.cliSending, "CloseSend")()
 	s.net.mu.Lock()
 	defer s.net.mu.Unlock()
 	if s.cliErr != nil || s.cliFinished || s.cliReset {
@@ -618,6 +650,7 @@ func (c *clientStream) CloseSend() error {
 func (c *clientStream) SendMsg(m any) error {
 	s := c.s
 	n := s.net
+	defer s.enter(&s.cliSending, "SendMsg")()
 	b, merr := proto.Marshal(m.(proto.Message))
 	n.mu.Lock()
 	defer n.mu.Unlock()
@@ -653,6 +686,7 @@ func (c *clientStream) SendMsg(m any) error {
 func (c *clientStream) RecvMsg(m any) error {
 	s := c.s
 	n := s.net
+	defer s.enter(&s.cliRecving, "RecvMsg")()
 	n.mu.Lock()
 	defer n.mu.Unlock()
 	for {
@@ -748,6 +782,7 @@ func (ss *serverStream) SetTrailer(md metadata.MD) {
 func (ss *serverStream) SendMsg(m any) error {
 	s := ss.s
 	n := s.net
+	defer s.enter(&s.srvSending, "ServerStream.SendMsg")()
 	b, merr := proto.Marshal(m.(proto.Message))
 	n.mu.Lock()
 	defer n.mu.Unlock()
@@ -792,6 +827,7 @@ func (ss *serverStream) SendMsg(m any) error {
 func (ss *serverStream) RecvMsg(m any) error {
 	s := ss.s
 	n := s.net
+	defer s.enter(&s.srvRecving, "ServerStream.RecvMsg")()
 	n.mu.Lock()
 	defer n.mu.Unlock()
 	for {
